@@ -14,7 +14,7 @@ use std::time::Duration;
 pub struct Port { rt: tokio::runtime::Runtime, addr: SocketAddr, wrapper: IceSocketWrapper, _reg: Box<dyn std::any::Any + Send>, tx: tokio::net::UdpSocket }
 const UFRAG: &str = "c07ufrag";
 /// bytes one `peers` entry costs (measured 2026-09: see `sharedudpflood:retained_per_source:0` in the evidence) × 1.25
-const REGISTERED_PER_SOURCE_MAX: u64 = 150;     // measured 85–89 B per source (SocketAddr key + ufrag String + slot); ≤ 2× right after a table doubling
+const REGISTERED_PER_SOURCE_MAX: u64 = 110;     // 1.25 × the measured 85–89 B per source (SocketAddr key + ufrag String + slot) at the flood sizes the harness uses (1500 / 6000; other sizes sit differently in the table's doubling cycle)
 
 fn binding(ufrag: &str, tid: u8) -> Vec<u8> {
     StunMessage { class: StunClass::Request, method: StunMethod::Binding, transaction_id: [tid; 12], attributes: vec![StunAttribute::Username(format!("{ufrag}:peer"))] }.encode(None, false).unwrap()
